@@ -278,6 +278,33 @@ def tombstone_rule(ctx, facts, cfg, pe, rid, ops, floor):
         ctx.violation(rid, '<floor>', 'guarded operations', 'found %d instances of %s, expected %d' % (n, '/'.join(o[0].split('::')[-1] for o in ops), floor), kind='below-floor')
 
 
+def clean_failure_rule(ctx, facts, cfg, rid, entries, exc=None, used=None, pe=None, floor=0):
+    """No Err return after a destructive event, for the given operations (shared: C10.a over all operations, C09.g over insertion)."""
+    exc = exc if exc is not None else load_exceptions()
+    used = used if used is not None else set()
+    pe = pe or PacketEvents(facts)
+    au = DirtyAu(facts, pe, exc, used)
+    flow = PathFlow(facts, au)
+    n = 0
+    for key in entries:
+        f = facts.fns.get(key)
+        if f is None:
+            ctx.missing(rid, key)
+            continue
+        n += 1
+        exits = flow.summary(key, None)
+        bad = sorted(((q, kind) for (q, kind) in exits if kind in ('Err', 'None') and q is not None and f['locals'][0].get('adt') == 'std::result::Result'), key=repr)
+        fails = any(kind == 'Err' for (q, kind) in exits)
+        ctx.instance(rid, '%s: %s' % (key, 'can fail; every Err exit is clean' if fails and not bad else 'cannot fail' if not fails else 'Err after a destructive event'),
+                     ok=not bad, site=f['at'])
+        for (q, kind) in bad[:2]:
+            w = flow.witness(key, None, q, kind)
+            ctx.violation(rid, key, 'err-after:' + q.split(' @')[0], '%s can return an error after a destructive event (%s): the failed call leaves the packet object changed'
+                          % (key.split('::')[-1].split('@')[0], q), site=q.split('@')[-1], path=flow.describe_path(key, w), config=cfg)
+    if n < floor:
+        ctx.violation(rid, '<floor>', 'operations', 'found %d operations, expected %d' % (n, floor), kind='below-floor')
+
+
 def run(ctx):
     exc = load_exceptions()
     for cfg in ctx.configs():
@@ -286,8 +313,6 @@ def run(ctx):
         used = set()
         # ------------------------------ C10.a ---------------------------------
         rid = 'C10.a'
-        au = DirtyAu(facts, pe, exc, used)
-        flow = PathFlow(facts, au)
         entries = [p for p in OPS_PLAIN if facts.fn(p)] + [k for p in OPS_TRAIT for k in facts.inst_keys(p)]
         for p in OPS_PLAIN:
             if facts.fn(p) is None:
@@ -295,17 +320,7 @@ def run(ctx):
         for p in OPS_TRAIT:
             if not facts.inst_keys(p):
                 ctx.missing(rid, p)
-        for key in sorted(set(entries)):
-            f = facts.fns[key]
-            exits = flow.summary(key, None)
-            bad = sorted(((q, kind) for (q, kind) in exits if kind in ('Err', 'None') and q is not None and f['locals'][0].get('adt') == 'std::result::Result'), key=repr)
-            fails = any(kind == 'Err' for (q, kind) in exits)
-            ctx.instance(rid, '%s: %s' % (key, 'can fail; every Err exit is clean' if fails and not bad else 'cannot fail' if not fails else 'Err after a destructive event'),
-                         ok=not bad, site=f['at'])
-            for (q, kind) in bad[:2]:
-                w = flow.witness(key, None, q, kind)
-                ctx.violation(rid, key, 'err-after:' + q.split(' @')[0], '%s can return an error after a destructive event (%s): the failed call leaves the packet object changed'
-                              % (key.split('::')[-1].split('@')[0], q), site=q.split('@')[-1], path=flow.describe_path(key, w), config=cfg)
+        clean_failure_rule(ctx, facts, cfg, rid, sorted(set(entries)), exc=exc, used=used, pe=pe)
         ctx.floor(rid, 11, 'listed operations')
         for ex in exc.get('C10.a', []):
             k = ex['caller'] + ' -> ' + ex['callee']
